@@ -168,6 +168,52 @@ def detoured(h, how):
     return h
 
 
+def paired_instances(left, right, spec_l, spec_r, dpath):
+    """For a template-less (reloaded) left operand: is there a pair (node of left, node of right) at the differing
+    spec position that the merge actually brings together?  Children are paired position by position / key by key;
+    a bin that only the right operand has is paired with an existing bin of the same left container (what fix 596a378
+    compares it with; that comparison reaches one sparse level deep only - known finding c10-templateless-nested-sparse)."""
+    pairs = [(left, right, spec_l, spec_r)]
+    path = list(dpath)
+    i = 0
+    while i < len(path):
+        slot = path[i]
+        nxt = []
+        step = 1
+        for lo, ro, sl, sr in pairs:
+            k = sl["k"]
+            if k in ("Label", "UntypedLabel"):
+                key = path[i + 1]
+                step = 2
+                if key in lo.pairs and key in ro.pairs:
+                    nxt.append((lo.pairs[key], ro.pairs[key], sl["pairs"][key], sr["pairs"][key]))
+            elif k in ("Index", "Branch"):
+                j_ = path[i + 1]
+                step = 2
+                if j_ < len(lo.values) and j_ < len(ro.values):
+                    nxt.append((lo.values[j_], ro.values[j_], sl["values"][j_], sr["values"][j_]))
+            elif slot in ("underflow", "overflow", "nanflow", "cut"):
+                nxt.append((getattr(lo, slot), getattr(ro, slot), sl[slot], sr[slot]))
+            elif slot == "value":
+                if k == "Bin":
+                    nxt += [(a_, b_, sl["value"], sr["value"]) for a_, b_ in zip(lo.values, ro.values)]
+                elif k in ("CentrallyBin", "IrregularlyBin", "Stack"):
+                    nxt += [(a_[1], b_[1], sl["value"], sr["value"]) for a_, b_ in zip(lo.bins, ro.bins)]
+                elif k == "Fraction":
+                    nxt += [(lo.numerator, ro.numerator, sl["value"], sr["value"]), (lo.denominator, ro.denominator, sl["value"], sr["value"])]
+                elif k in ("SparselyBin", "Categorize"):
+                    for key, rb in ro.bins.items():
+                        if key in lo.bins:
+                            nxt.append((lo.bins[key], rb, sl["value"], sr["value"]))
+                        elif lo.bins:
+                            nxt.append((next(iter(lo.bins.values())), rb, sl["value"], sr["value"]))
+        pairs = nxt
+        if not pairs:
+            return False
+        i += step
+    return bool(pairs)
+
+
 def check_one(spec, v, sa, sb, opname, swap, detours=("none", "none")):
     a = detoured(fill(build(spec), sa), detours[0])
     b = detoured(fill(build(v["spec"] if v else spec), sb), detours[1])
@@ -194,6 +240,11 @@ def check_one(spec, v, sa, sb, opname, swap, detours=("none", "none")):
     # takes over against its template (`template.zero() + bin`), also while it has no bin of its own yet
     spec_l, spec_r = (v["spec"], spec) if swap else (spec, v["spec"])
     realised = (ia and ib) or (bool(walk.instances(right, spec_r, where0)) and bool(walk.instances(left, spec_l, where0, templates=True)))
+    left_how0 = detours[1] if swap else detours[0]
+    if realised and left_how0 == "reload":
+        # a reloaded left operand has no templates: only nodes that the merge actually brings together can be compared
+        # (an empty template-less container knows nothing about the structure of bins it does not have)
+        realised = paired_instances(left, right, spec_l, spec_r, where0)
     raised = None
     try:
         op(left, right)
